@@ -32,8 +32,8 @@ def plan(tier):
 def run_case(cs, ctx):
     from matchingproblems.solver import Solver
     rng = random.Random(cs)
-    spec = sp.make_spec(rng)
     bf = rng.random() < 0.15
+    spec = sp.make_spec_bf(rng) if bf else sp.make_spec(rng)
     if bf:
         opts = {'twopl': rng.random() < 0.5, 'pc': rng.random() < 0.3, 'stab': False, 'crits': [], 'bf': True}
     else:
@@ -66,19 +66,93 @@ def run_case(cs, ctx):
     log = []
     nsolve = 0
     repeated_getter = False
+    pending = None     # facts of the current epoch, completed at its end
+    import datetime as _dtmod
+    real_dt = _dtmod.datetime
+    use_limit = (not bf) and rng.random() < 0.3
+    limit = 50.0 if use_limit else None
+
+    class JumpDT(real_dt):
+        """Virtual time that jumps forward between getter calls (injected delay)."""
+        offset = 0.0
+
+        @classmethod
+        def now(cls, tz=None):
+            return real_dt.now(tz) + _dtmod.timedelta(seconds=cls.offset)
+
+    def close_epoch():
+        """Read the facts of the epoch that ends now and compare with the first epoch."""
+        nonlocal first
+        if pending is None:
+            return True
+        facts, k = pending['facts'], pending['nsolve']
+        try:
+            txt = s.get_results()
+        except Exception as e:
+            ctx.finding(en.F('C18', 'getter_raises', 'get_results() after solve #%d raised %s: %s' % (k, type(e).__name__, e),
+                             getter='get_results', exc=en.exc_info(e), bf=bf), case)
+            return False
+        if 'get_results' in seen and seen['get_results'] != txt:
+            ctx.finding(en.F('C18', 'getter_idempotent', 'get_results() returned different text within one epoch (history %s + final read)' % hist,
+                             getter='get_results', bf=bf), case)
+            return False
+        if bf:
+            facts['text_wo_time'] = '\n'.join(l for l in txt.split('\n') if not l.startswith(('time_', '# Results')))
+        else:
+            try:
+                pr = op.parse_results(txt)
+            except op.ParseError:
+                ctx.cnt('unobservable_results_do_not_parse')
+                return False
+            facts['status'] = 'Timeout' if pr['timeout'] is not None else pr['status']
+            m = pr['stats'].get('matching')
+            facts['vec'] = None
+            if m is not None:
+                why = rm.validity(inst, m, opts['pc'])
+                if why is not None:
+                    if k > 1:
+                        ctx.finding(en.F('C18', 'resolve_valid', 'after solve #%d the matching %s is not valid: %s' % (k, list(m), why)), case)
+                    return False
+                facts['vec'] = rm.value_vector(m, steps)
+        log.append(('epoch_end', facts.get('status', 'bf')))
+        if first is None:
+            first = facts
+        else:
+            ctx.cnt('resolves_judged')
+            for key in ('status', 'vec', 'text_wo_time'):
+                if key in first and facts.get(key) != first[key]:
+                    ctx.finding(en.F('C18', 'resolve_reproducible', 'solve #%d gives %s = %r, the first solve gave %r' % (
+                        k, key, facts.get(key), first[key]), key=key), case)
+            if not bf:
+                ctx.cnt('resolve_traces_judged')
+                if facts['n_solves'] != first['n_solves'] or facts['ncons'] != first['ncons']:
+                    ctx.finding(en.F('C18', 'resolve_same_trace', 'solve #%d performed %d underlying solves with %s constraints; '
+                                     'the first solve performed %d with %s' % (k, facts['n_solves'], facts['ncons'],
+                                                                              first['n_solves'], first['ncons'])), case)
+        return True
+
     try:
+        if use_limit:
+            _dtmod.datetime = JumpDT
+            ctx.cnt('histories_with_time_limit_and_time_jumps')
         for call in hist:
             ctx.cnt('calls')
             if call == 'solve':
+                if not close_epoch():
+                    return
                 epoch += 1
                 seen = {}
                 before = len(TAP.events)
                 TAP.enabled = True
                 try:
-                    s.solve()
+                    if limit is None:
+                        s.solve()
+                    else:
+                        s.solve(timeLimit=limit)
                 except Exception as e:
                     ctx.cnt('unobservable_solve_raised')
                     log.append(('solve', 'raised ' + type(e).__name__))
+                    pending = None
                     return
                 finally:
                     TAP.enabled = False
@@ -86,58 +160,24 @@ def run_case(cs, ctx):
                 evs = TAP.events[before:]
                 if any(e.get('backend_fault') for e in evs):
                     ctx.cnt('excluded_backend_returned_infeasible_point')
+                    pending = None
                     return
-                facts = {'n_solves': len(evs), 'ncons': [e['ncons'] for e in evs]}
-                try:
-                    txt = s.get_results()
-                except Exception as e:
-                    ctx.finding(en.F('C18', 'getter_raises', 'get_results() after solve #%d raised %s: %s' % (nsolve, type(e).__name__, e),
-                                     getter='get_results', exc=en.exc_info(e), bf=bf), case)
-                    return
-                seen['get_results'] = txt
-                if bf:
-                    facts['text_wo_time'] = '\n'.join(l for l in txt.split('\n') if not l.startswith(('time_', '# Results')))
-                else:
-                    try:
-                        pr = op.parse_results(txt)
-                    except op.ParseError:
-                        ctx.cnt('unobservable_results_do_not_parse')
-                        return
-                    facts['status'] = pr['status']
-                    m = pr['stats'].get('matching')
-                    facts['vec'] = None
-                    if m is not None:
-                        why = rm.validity(inst, m, opts['pc'])
-                        if why is not None:
-                            if nsolve > 1:
-                                ctx.finding(en.F('C18', 'resolve_valid', 'after solve #%d the matching %s is not valid: %s' % (nsolve, list(m), why)), case)
-                            return
-                        facts['vec'] = rm.value_vector(m, steps)
-                log.append(('solve', facts.get('status', 'bf')))
-                if first is None:
-                    first = facts
-                else:
-                    ctx.cnt('resolves_judged')
-                    for k in ('status', 'vec', 'text_wo_time'):
-                        if k in first and facts.get(k) != first[k]:
-                            ctx.finding(en.F('C18', 'resolve_reproducible', 'solve #%d gives %s = %r, the first solve gave %r' % (
-                                nsolve, k, facts.get(k), first[k]), key=k), case)
-                    if not bf:
-                        ctx.cnt('resolve_traces_judged')
-                        if facts['n_solves'] != first['n_solves'] or facts['ncons'] != first['ncons']:
-                            ctx.finding(en.F('C18', 'resolve_same_trace', 'solve #%d performed %d underlying solves with %s constraints; '
-                                             'the first solve performed %d with %s' % (nsolve, facts['n_solves'], facts['ncons'],
-                                                                                      first['n_solves'], first['ncons'])), case)
+                pending = {'facts': {'n_solves': len(evs), 'ncons': [e['ncons'] for e in evs]}, 'nsolve': nsolve}
+                log.append(('solve', nsolve))
             else:
                 try:
                     txt = getattr(s, call)()
                 except Exception as e:
                     ctx.finding(en.F('C18', 'getter_raises', '%s() raised %s: %s [%s]' % (call, type(e).__name__, e, en.exc_info(e)['where']),
                                      getter=call, exc=en.exc_info(e), bf=bf), case)
+                    pending = None
                     return
+                if use_limit:
+                    JumpDT.offset += 100.0      # the next getter call happens "100 s later"
                 log.append((call, len(txt) if isinstance(txt, str) else None))
                 if not isinstance(txt, str):
                     ctx.finding(en.F('C18', 'getter_text', '%s() returned %s' % (call, type(txt).__name__), getter=call), case)
+                    pending = None
                     return
                 ctx.cnt('getter_returns')
                 if call in seen:
@@ -146,13 +186,17 @@ def run_case(cs, ctx):
                     if seen[call] != txt:
                         a, b = seen[call].split('\n'), txt.split('\n')
                         diff = next(((x, y) for x, y in zip(a, b) if x != y), (len(a), len(b)))
-                        ctx.finding(en.F('C18', 'getter_idempotent', '%s() returned different text within one epoch (history %s): %r vs %r' % (
-                            call, hist, diff[0], diff[1]), getter=call, bf=bf), case)
+                        ctx.finding(en.F('C18', 'getter_idempotent', '%s() returned different text within one epoch (history %s%s): %r vs %r' % (
+                            call, hist, ', timeLimit=%s with 100 s of virtual time between getter calls' % limit if use_limit else '',
+                            diff[0], diff[1]), getter=call, bf=bf), case)
+                        pending = None
                         return
                 else:
                     seen[call] = txt
+        close_epoch()
     finally:
         TAP.enabled = False
+        _dtmod.datetime = real_dt
     if nsolve >= 2 and repeated_getter:
         ctx.nontrivial(sp.shash([text, argv[2:], hist]))
     ctx.cov('bf_histories' if bf else 'lp_histories')
